@@ -743,7 +743,7 @@ fn main() {
                 cases.push((format!("corpus:{name}"), lines));
             }
         }
-        let n = args.extra.get("cases").and_then(|c| c.parse().ok()).unwrap_or_else(|| args.budget(64, 700));
+        let n = args.extra.get("cases").and_then(|c| c.parse().ok()).unwrap_or_else(|| args.budget(64, 500));
         for i in 0..n {
             let mut rng = Rng::for_case(args.seed, i);
             cases.push((format!("gen:{i}"), gen_case(&mut rng, &tables, args.thorough() || args.focus.is_some())));
